@@ -11,7 +11,6 @@ import (
 
 	"github.com/metal-toolbox/auditevent"
 	"github.com/prometheus/client_golang/prometheus"
-	"go.uber.org/zap"
 
 	"github.com/metal-toolbox/audito-maldito/ingesters/auditlog"
 	"github.com/metal-toolbox/audito-maldito/ingesters/namedpipe"
@@ -48,7 +47,7 @@ func (s *sink) count() int {
 // (1) waiting for a writer to open the pipe, (2) blocked reading an idle open
 // pipe, (3) holding a partial record.
 func runC13fifo(run *mc.Run) int {
-	sshd.SetLogger(zap.NewNop().Sugar())
+	sshd.SetLogger(mc.DebugLogger())
 	stall := 1500 * time.Millisecond // how long downstream accepts nothing in the slow-hand-off cell
 	if run.Thorough() {
 		stall = 6 * time.Second
@@ -66,7 +65,7 @@ func runC13fifo(run *mc.Run) int {
 			if err := syscall.Mkfifo(path, 0o600); err != nil {
 				panic(err)
 			}
-			npi := namedpipe.NewNamedPipeIngester(zap.NewNop().Sugar(), health.NewHealth())
+			npi := namedpipe.NewNamedPipeIngester(mc.DebugLogger(), health.NewHealth())
 			ctx, cancel := context.WithCancel(context.Background())
 			out := &sink{}
 			auditCh := make(chan string, 100)
